@@ -966,7 +966,15 @@ void GenLimit(vh::Rng& rng, Case& k)
             else if (op != 0x61) op = 0x61;
             s.op(op);
             ++cnt;
-            if (rng.chance(1, 10)) s.op(0x51).op(0x50 + 1), depth += 2; // pushes do not count
+            if (rng.chance(1, 6)) { // push opcodes (everything up to and including OP_16) do not count; OP_RESERVED only when dead
+                static const unsigned P[] = {0x60, 0x60, 0x60, 0x4f, 0x51, 0x5f, 0x00, 0x50};
+                unsigned q = P[rng.below(dead ? 8 : 7)];
+                s.op(q);
+                if (q == 0x50 || rng.coin()) continue;
+                if (dead || cnt >= n) continue;
+                s.op(0x75); // drop it again (counts)
+                ++cnt;
+            }
         }
         if (dead) s.op(0x68);
         s.op(0x51);
@@ -1256,6 +1264,17 @@ void GenWrap(vh::Rng& rng, Case& k)
         const unsigned leaf_ver = flaw == 5 ? 0xc2 + 2 * rng.below(8) : 0xc0;
         const int depth = rng.below(4);
         if (rng.chance(1, 25)) prog.insert(prog.begin(), 0xbb + rng.below(0xfe - 0xbb + 1)); // OP_SUCCESSx in front
+        if (rng.chance(1, 6)) {
+            // an opcode at the edge of one of the OP_SUCCESSx ranges, in front or inside a dead branch
+            static const unsigned EDGE[] = {79, 80, 81, 97, 98, 125, 126, 129, 130, 131, 134, 135, 136, 137, 138, 139, 140, 141, 142, 143,
+                                            148, 149, 153, 154, 186, 187, 188, 253, 254, 255};
+            const unsigned e = EDGE[rng.below(sizeof(EDGE) / sizeof(EDGE[0]))];
+            if (rng.coin()) prog.insert(prog.begin(), e);
+            else {
+                const unsigned char dead[] = {0x00, 0x63, static_cast<unsigned char>(e), 0x68};
+                prog.insert(prog.begin(), dead, dead + 4);
+            }
+        }
         Tap t = MakeTap(rng, internal, &prog, leaf_ver, depth);
         k.wit = items;
         if (flaw == 6 && !k.wit.empty()) k.wit[rng.below(k.wit.size())] = rng.bytes(521);
